@@ -380,3 +380,8 @@ def run(ctx):
     from .c02 import check_dynamic
 
     check_dynamic(ctx, "C03.P4")
+    # every allowed alternative type round-trips at its boundary values: the numeric table (shared with C01.T1 / C02.T2)
+    from . import _items, c01
+
+    n = _items.check_numeric_table(ctx, "C03.T3", c01.NUMERIC, c01.VAR_ATTRS)
+    ctx.floor("numeric classes", n, 10)
